@@ -41,6 +41,7 @@ inductive Op where
   | keys (c : String)
   | expState
   | draw      -- another bucket of the process draws a timestamp from the shared clock
+  | restart (processHlc : Nat)   -- close every handle, new process (clock starts at `processHlc`), reopen
   deriving Repr, Inhabited
 
 /-- Everything the readback line shows for one key. -/
@@ -60,6 +61,7 @@ inductive Resp where
   | lastCas (bucket coll hlc : Nat)
   | keys (l : List String)
   | next (n : Nat)
+  | reopened (hlc next : Nat)
   deriving Repr, Inhabited
 
 /-- The shape of the single-row entry points (`none`: compound, bucket-level, feed or read operations). -/
@@ -81,6 +83,11 @@ def Op.shape : Op → Option OpShape
   | .delx c k names => some (.row c k (delxRow k names))
   | .dsp c k names => some (.row c k (dspRow k names))
   | _ => none
+
+/-- Reopening (in a new process or the same one): the clock is re-seeded with the persisted high-water mark,
+    feeds are gone, the expiry timer is re-armed from the earliest stored expiry. -/
+def reopen (s : State) (processHlc : Nat) : State :=
+  { s with hlc := hlcUpdate processHlc s.lastCas, feeds := [], expNext := minExp s }
 
 def readBack (s : State) (c k : String) (names : List String) : ReadBack :=
   { row := s.row? c k, getRaw := getRaw s c k, exists_ := exists_ s c k, getExpiry := getExpiry s c k,
@@ -122,6 +129,7 @@ def step (s : State) : Op → State × Resp
   | .keys c => (s, .keys (((s.coll? c).map (·.docs.map (·.1)) |>.getD []).foldr insertSortedStr []))
   | .expState => (s, .next s.expNext)
   | .draw => let nc := hlcNow s.hlc s.phys; ({ s with hlc := nc }, .out { cas := nc })
+  | .restart p => let s' := reopen s p; (s', .reopened s'.hlc s'.expNext)
 
 /-- Run a list of operations, collecting the responses. -/
 def run (s : State) : List Op → State × List Resp
